@@ -6,5 +6,7 @@ import "verif/harness/vk"
 func All() []*vk.Check {
 	return []*vk.Check{
 		C09(),
+		C14(),
+		C15(),
 	}
 }
